@@ -1104,7 +1104,7 @@ async def run_mrp_history(ops, initial, caps="a"):
         else:
             if op == "set" and x is not None and isinstance(x, float) and math.isfinite(x) and int(x * 7) % 11 == 0:
                 rig.hostile = (x - 60.0) / 100.0      # now and then the device answers with nonsense
-            reported = rig.expected
+            reported, device_before = rig.expected, rig.device_level
             rig.faithful = True
             await rig.user_op(op, x)
             evs = list(rig.entries_last[1])
@@ -1113,7 +1113,7 @@ async def run_mrp_history(ops, initial, caps="a"):
             # the operation has RETURNED: with absolute volume control the device's confirmation
             # has been awaited, so the level reads back at once (before the loop runs again)
             if op in ("set", "up", "down") and caps in ("a", "b") and rig.faithful and not any(e.startswith("raise:") for e in evs):
-                rig.step_checks.append((op, x, reported, evs, rig.read_now()))
+                rig.step_checks.append((op, x, reported, evs, rig.read_now(), device_before))
         await rig.settle()
     return rig
 
@@ -1161,9 +1161,15 @@ def history_problems(proto, ops, rig, utils):
                                  f"the device reported {reported!r} %, volume_{op} -> {evs} (ProtocolError required, nothing sent)"))
     # MRP with absolute volume control: once set_volume / volume_up / volume_down has returned,
     # audio.volume reads the new level (to the 0.1 % the device reports in)
-    for op, x, before, evs, got in getattr(rig, "step_checks", []):
+    for op, x, before, evs, got, device_before in getattr(rig, "step_checks", []):
         if op == "set":
             want = x if in_pct(x) else None
+        elif any(e.startswith("key:") for e in evs):
+            # relative control: the device chooses the step (the fake one: +-0.05 of its own
+            # level, kept within 0..1) and confirms it; the call has waited for that
+            base = device_before if math.isfinite(device_before) else 0.5
+            stepped = min(max(base + (0.05 if op == "up" else -0.05), 0.0), 1.0)
+            want = round(struct.unpack("<f", struct.pack("<f", stepped))[0] * 100.0, 1)
         elif not in_pct(before):
             want = None
         else:
